@@ -91,21 +91,27 @@ func (queue *FileQueue) setIndex(item *item) {
 	queue.IndexRW.Lock()
 	defer queue.IndexRW.Unlock()
 
-	tmp, ok := queue.Index[common.ToHex(item.key)]
+	tmp, ok := queue.Index[indexKey(item.flg, item.key)]
 	if !ok {
 		item.refCnt = 1
 	} else {
 		item.refCnt = tmp.refCnt + 1
 	}
 
-	queue.Index[common.ToHex(item.key)] = item
+	queue.Index[indexKey(item.flg, item.key)] = item
+}
+
+// indexKey names a pending record by its flag AND its key. Keys of different flags may have the same bytes: a contract whose code is
+// byte for byte a trie node is stored under keccak(code) as code and as trie node, in one block
+func indexKey(flag uint32, key []byte) string {
+	return fmt.Sprintf("%d:%s", flag, common.ToHex(key))
 }
 
 func (queue *FileQueue) delIndex(flag uint32, key []byte) {
 	queue.IndexRW.Lock()
 	defer queue.IndexRW.Unlock()
 
-	val, ok := queue.Index[common.ToHex(key)]
+	val, ok := queue.Index[indexKey(flag, key)]
 	if !ok {
 		log.Errorf("del index.done is not exist.flg: %d, key: %s", flag, common.ToHex(key))
 	} else {
@@ -114,14 +120,14 @@ func (queue *FileQueue) delIndex(flag uint32, key []byte) {
 		}
 
 		if val.refCnt <= 1 {
-			delete(queue.Index, common.ToHex(key))
+			delete(queue.Index, indexKey(flag, key))
 			if len(queue.Index) <= 0 {
 				// del tmp file.
 
 			}
 		} else {
 			val.refCnt = val.refCnt - 1
-			queue.Index[common.ToHex(key)] = val
+			queue.Index[indexKey(flag, key)] = val
 		}
 	}
 }
@@ -130,7 +136,7 @@ func (queue *FileQueue) getIndex(flag uint32, key []byte) []byte {
 	queue.IndexRW.Lock()
 	defer queue.IndexRW.Unlock()
 
-	val, ok := queue.Index[common.ToHex(key)]
+	val, ok := queue.Index[indexKey(flag, key)]
 	if !ok {
 		return nil
 	} else {
